@@ -1,7 +1,7 @@
 #!/usr/bin/env python3
 """Confirm a seeded mutation and run the checks against it.
 
-usage: seedtest.py <PROP> <LABEL> [--tier quick|thorough] [--skip-confirm] [--only substr]
+usage: seedtest.py <PROP> <LABEL> [--tier quick|thorough] [--skip-confirm] [--only substr] [--round 2]
 Reads /tmp/wt/out_<PROP>/<LABEL>.diff and <LABEL>_demo.py (sub-agent deliverables),
 confirms them in the scratch worktree /tmp/wt/<PROP>, then applies the diff to /repo,
 runs ./check <PROP>, and reverts /repo.  Results go to /verif/seeded/<PROP>-<LABEL>/.
@@ -15,10 +15,11 @@ if "--tier" in sys.argv:
 only = sys.argv[sys.argv.index("--only") + 1] if "--only" in sys.argv else None
 skip = "--skip-confirm" in sys.argv
 wt = f"/tmp/wt/{prop}"
-out = f"/tmp/wt/out_{prop}"
+rnd = sys.argv[sys.argv.index("--round") + 1] if "--round" in sys.argv else ""
+out = f"/tmp/wt/out{rnd}_{prop}"
 diff = f"{out}/{label}.diff"
 demo = f"{out}/{label}_demo.py"
-dest = f"/verif/seeded/{prop}-{label}"
+dest = f"/verif/seeded/{prop}-{label}{rnd}"
 os.makedirs(dest, exist_ok=True)
 meta = {"property": prop, "label": label}
 if os.path.exists(f"{dest}/meta.json"):
